@@ -26,7 +26,12 @@ def cval(F, name):
 def guard_val(an, st, term, value):
     """truth of (term == value) under the outcome's facts"""
     ty = "usize"
-    return an.truth(st.facts, T.bin("Eq", term, T.const(ty, value), ty))
+    r = an.truth(st.facts, T.bin("Eq", term, T.const(ty, value), ty))
+    if r is None and term.op == "cast" and term.args[0] == "IntToInt":
+        # the same test made on the field before it is widened (`match ehdr.e_shnum { 0 => .. }`)
+        x, frm = term.args[1], term.args[2]
+        r = an.truth(st.facts, T.bin("Eq", x, T.const(frm, value), frm))
+    return r
 
 
 def table_outcomes(F, rep, q, kind, file_is_stream):
@@ -195,28 +200,35 @@ def entsize_rule(F, rep):
         n += 1
         an = analyze_fn(F, fn)
         w = wh(fn["span"])
-        vcs = []
-        for c in an.calls():
-            if c.declared_norm == "parse::ParseAt::validate_entsize" or c.callee_norm.endswith("ParseAt>::validate_entsize"):
-                g = c.callee.get("generics") or []
-                if g and nm(g[0]) == ty:
-                    vcs.append(c)
-        good = bool(vcs)
+        # must-pass-through, read off the outcomes (so the validation may sit in a helper): every success outcome that yields a table
+        # was reached with validate_entsize::<ty>(class, <field>) == Ok
+        def is_validation(x):
+            if x.op != "call":
+                return False
+            f_, g_, a_ = x.args
+            if f_ == "parse::ParseAt::validate_entsize":
+                tyok = bool(g_) and nm(g_[0]) == ty
+            elif f_.endswith("ParseAt>::validate_entsize"):
+                tyok = nm(f_[1:].split(" as ")[0]) == ty
+            else:
+                return False
+            src = norm(a_[1]) if len(a_) > 1 else ()
+            return tyok and src and src[0] in ("fld", "as") and any(ff[2] == field for ff in prov.leaves_fields(src))
+        good = True
         detail = ""
-        if good:
-            c = vcs[0]
-            src = norm(c.args[1])
-            good = any(f[2] == field for f in prov.leaves_fields(src)) and src[0] in ("fld", "as")
-            detail = show(src)
-        # every success outcome that yields a table has the validation's Ok on its path
-        if good:
-            R = vcs[0].result
-            for v, st in ok_outcomes(an):
-                nv = norm(v)
-                yields = not (nv == ("agg", "option::Option", "None", ()) or nv == ("call", "default::Default::default", ()))
-                if yields and ("var", R, "Ok") not in st.facts:
-                    good = False
-                    detail = "a success outcome yields a table without the validation having succeeded: %s" % show(nv)[:160]
+        n_yield = 0
+        for v, st in ok_outcomes(an):
+            nv = norm(v)
+            yields = not (nv == ("agg", "option::Option", "None", ()) or nv == ("call", "default::Default::default", ()))
+            if not yields:
+                continue
+            n_yield += 1
+            if not any(f[0] == "var" and f[2] == "Ok" and is_validation(f[1]) for f in st.facts):
+                good = False
+                detail = "a success outcome yields a table without the validation having succeeded: %s" % show(nv)[:160]
+        if n_yield == 0:
+            good = False
+            detail = "no table-yielding outcome"
         rep.require(good, "entsize-validated", "%s<%s>(%s)" % (q, ty.split("::")[-1], field), w,
                     "validate_entsize::<%s>(class, %s) succeeds on every path that yields the table" % (ty.split("::")[-1], field),
                     "%s does not validate %s against size_for::<%s>(class) on every success path (%s)" % (q, field, ty.split("::")[-1], detail))
